@@ -679,3 +679,97 @@ func bitsLen(x uint) int {
 	}
 	return n
 }
+
+// ---- sync.Map and sync/atomic: sequentialised ----
+type syncMapEntry struct{ k, v Value }
+
+func (in *Interp) syncMap(p Ptr) *[]syncMapEntry {
+	m, _ := in.pathState["syncmaps"].(map[Ptr]*[]syncMapEntry)
+	if m == nil {
+		m = map[Ptr]*[]syncMapEntry{}
+		in.pathState["syncmaps"] = m
+	}
+	if m[p] == nil {
+		m[p] = &[]syncMapEntry{}
+	}
+	return m[p]
+}
+
+func (in *Interp) syncMapFind(p Ptr, k Value) (int, *[]syncMapEntry) {
+	es := in.syncMap(p)
+	for i, e := range *es {
+		c := in.eq(e.k, k)
+		same := false
+		if c.IsConst() {
+			same = c.c != 0
+		} else {
+			same = in.w.branchT(c)
+		}
+		if same {
+			return i, es
+		}
+	}
+	return -1, es
+}
+
+func init() {
+	reg("(*sync.Map).Load", func(in *Interp, c *frame, fn *ssa.Function, a []Value) Value {
+		i, es := in.syncMapFind(a[0].(Ptr), a[1])
+		if i < 0 {
+			return Tuple{Iface{}, tFalse}
+		}
+		return Tuple{(*es)[i].v, tTrue}
+	})
+	reg("(*sync.Map).Store", func(in *Interp, c *frame, fn *ssa.Function, a []Value) Value {
+		i, es := in.syncMapFind(a[0].(Ptr), a[1])
+		if i < 0 {
+			*es = append(*es, syncMapEntry{a[1], a[2]})
+		} else {
+			(*es)[i].v = a[2]
+		}
+		return nil
+	})
+	reg("(*sync.Map).LoadOrStore", func(in *Interp, c *frame, fn *ssa.Function, a []Value) Value {
+		i, es := in.syncMapFind(a[0].(Ptr), a[1])
+		if i < 0 {
+			*es = append(*es, syncMapEntry{a[1], a[2]})
+			return Tuple{a[2], tFalse}
+		}
+		return Tuple{(*es)[i].v, tTrue}
+	})
+	reg("(*sync.Map).Delete", func(in *Interp, c *frame, fn *ssa.Function, a []Value) Value {
+		i, es := in.syncMapFind(a[0].(Ptr), a[1])
+		if i >= 0 {
+			*es = append((*es)[:i:i], (*es)[i+1:]...)
+		}
+		return nil
+	})
+	load := func(in *Interp, c *frame, fn *ssa.Function, a []Value) Value { return in.load(a[0]) }
+	store := func(in *Interp, c *frame, fn *ssa.Function, a []Value) Value { in.store(a[0], a[1]); return nil }
+	for _, t := range []string{"Uint32", "Int32", "Uint64", "Int64", "Uintptr", "Pointer"} {
+		reg("sync/atomic.Load"+t, load)
+		reg("sync/atomic.Store"+t, store)
+	}
+	for _, t := range []string{"Uint32", "Int32", "Uint64", "Int64"} {
+		reg("sync/atomic.Add"+t, func(in *Interp, c *frame, fn *ssa.Function, a []Value) Value {
+			v := in.tt.Bin(OAdd, in.load(a[0]).(*Term), a[1].(*Term))
+			in.store(a[0], v)
+			return v
+		})
+		reg("sync/atomic.CompareAndSwap"+t, func(in *Interp, c *frame, fn *ssa.Function, a []Value) Value {
+			cur := in.load(a[0]).(*Term)
+			eq := in.tt.Eq(cur, a[1].(*Term))
+			ok := false
+			if eq.IsConst() {
+				ok = eq.c != 0
+			} else {
+				ok = in.w.branchT(eq)
+			}
+			if ok {
+				in.store(a[0], a[2])
+				return tTrue
+			}
+			return tFalse
+		})
+	}
+}
